@@ -248,14 +248,43 @@ func (vc *VC) emitVariant(o *Obl, dir string, idx int, variant int) (string, int
 		// after replacing unchanged state by its earlier name) hold trivially: typical for "this did not change" invariants
 		goal0 := o.Goal
 		{
-			ctxN := normBound(vc.substAliases(b.String()))
+			// "occur among the assumptions" is meant strictly: as an unguarded conjunct of a path condition that the
+			// obligation's own path condition implies (path conditions reached through conjunctions only — not the branches of
+			// a merge, not hypotheses of implications, nothing under a negation)
+			implied := map[string]bool{}
+			var established []string
+			var walk func(t string)
+			walk = func(t string) {
+				switch {
+				case strings.HasPrefix(t, "(and "):
+					for _, c := range splitSexp(t)[1:] {
+						walk(c)
+					}
+				case strings.HasPrefix(t, "pc") && !strings.ContainsAny(t, " ("):
+					if !implied[t] {
+						implied[t] = true
+						if i, ok := defIdx[t]; ok && inclDef[i] {
+							walk(vc.defs[i].Term)
+						}
+					}
+				default:
+					if len(t) > 40 {
+						established = append(established, normBound(vc.substAliases(t)))
+					}
+				}
+			}
+			walk(o.PC)
+			estSet := map[string]bool{}
+			for _, e := range established {
+				estSet[e] = true
+			}
 			parts := []string{goal0}
 			if strings.HasPrefix(goal0, "(and ") {
 				parts = splitSexp(goal0)[1:]
 			}
 			changedG := false
 			for i, c := range parts {
-				if len(c) > 40 && strings.Contains(ctxN, normBound(vc.substAliases(c))) {
+				if len(c) > 40 && estSet[normBound(vc.substAliases(c))] {
 					parts[i] = T
 					changedG = true
 				}
